@@ -125,7 +125,8 @@ var mclasses = []mclass{
 	{"int-small", []emitter{vInt(0), vInt(1), vInt(-1), vInt(5)}},
 	{"int-edge", []emitter{vBig(maxI), vBig(minI), vBig(new(big.Int).Sub(maxI, bi(1))), vBig(new(big.Int).Add(minI, bi(1)))}},
 	// the limit constants as operand values: maxSHLArg, MaxStackSize, MaxSize, int32
-	{"int-limit", []emitter{vInt(256), vInt(257), vInt(2048), vInt(2049), vInt(131070), vInt(131071), vInt(1<<31 - 1), vInt(1 << 31), vInt(-(1 << 31)), vInt(-(1 << 31) - 1)}},
+	{"int-limit", []emitter{vInt(256), vInt(257), vInt(2048), vInt(2049), vInt(131070), vInt(131071), vInt(1<<31 - 1), vInt(1 << 31), vInt(-(1 << 31)), vInt(-(1 << 31) - 1),
+		vInt(255), vInt(65535), vInt(65536), vInt(127), vInt(128)}}, // … and the boundaries of narrow integers (uint8 / uint16 / int8)
 	{"bool", []emitter{vBool(true), vBool(false)}},
 	{"bs-empty", []emitter{vBS()}},
 	{"bs-short", []emitter{vBS(1), vBS(1, 2, 0x83), vBS(0x80), vBS(2, 0, 0, 0)}},
@@ -419,6 +420,11 @@ func (m *mop) buildCase(operands []emitter, imm []byte) *vcase {
 	return c
 }
 
+// heavyMatrix: include the case `RIGHT` with length 2^31-1 (the real VM allocates the 2 GB result before it finds
+// the length out of range — reported to the coordinator; FAULT either way); only in the thorough tier, the quick
+// tier must stay small on a shared machine.
+var heavyMatrix = false
+
 func buildMatrix() []*mcase {
 	var out []*mcase
 	skip := os.Getenv("VMOPS_MATRIX_SKIP") // self-test of the obligation: drop the rows of one opcode
@@ -443,6 +449,9 @@ func buildMatrix() []*mcase {
 		for pos := range m.defs {
 			for _, cl := range mclasses {
 				for ri, r := range cl.reps {
+					if !heavyMatrix && m.op == opcode.RIGHT && cl.name == "int-limit" && ri == 6 {
+						continue
+					}
 					ops := append([]emitter{}, m.defs...)
 					ops[pos] = r
 					_ = ri
